@@ -13,7 +13,12 @@ for f in sys.argv[1:]:
         if not m:
             continue
         pid, n, dc, dp, tests, nv, ex = m.groups()
-        caught = sorted({re.search(r'replays/C\d+/([A-Za-z0-9_.]+)-', x).group(1) for x in lines[i + 1:i + 4] if x.startswith('VIOLATION') and re.search(r'replays/C\d+/([A-Za-z0-9_.]+)-', x)})
+        nxt = []
+        for x in lines[i + 1:i + 6]:
+            if x.startswith('SEED '):
+                break
+            nxt.append(x)
+        caught = sorted({re.search(r'replays/C\d+/([A-Za-z0-9_.]+)-', x).group(1) for x in nxt if x.startswith('VIOLATION') and re.search(r'replays/C\d+/([A-Za-z0-9_.]+)-', x)})
         key = f'{pid}-{n}'
         prev = rows.get(key, {})
         if tests.startswith('(tests not run)') and prev.get('tests'):
